@@ -189,9 +189,24 @@ def install_find_top(ctx):
     if getattr(orig, '_vf_wrapped', False):
         return
 
-    def wrapper(path='.', allow_xdev=True, allow_compressed=False):
-        result = orig(path, allow_xdev=allow_xdev,
-                      allow_compressed=allow_compressed)
+    unset = object()
+
+    def wrapper(path='.', allow_xdev=unset, allow_compressed=unset):
+        # options the caller leaves out are left out here as well, so that the
+        # function's own defaults are what gets exercised; the model uses the
+        # documented ones (crossing allowed unless disallowed, compressed Manifests
+        # only when explicitly allowed)
+        kw = {}
+        if allow_xdev is not unset:
+            kw['allow_xdev'] = allow_xdev
+        else:
+            allow_xdev = True
+            ctx.counters['contract:find_top:default_xdev'] += 1
+        if allow_compressed is not unset:
+            kw['allow_compressed'] = allow_compressed
+        else:
+            allow_compressed = False
+        result = orig(path, **kw)
         try:
             res = findtop.find_top(path, allow_xdev, allow_compressed)
         except Exception as exc:
